@@ -42,7 +42,7 @@ TXT = {
    ref="6"),
  "C06": dict(
    level="exploration",
-   text="The same generated calls are executed in a pristine forked interpreter (golden) and under seeded variations of everything the property quantifies over: fresh interpreters with different PYTHONHASHSEED / cwd / locale / TZ, long-lived workers that first served a shuffled history (incl. the same bytes and near-twins of them through other entry points, with the garbage collector disabled / forced), concurrently scheduled asyncio tasks under a deterministic loop, caller threads pre-empted at line granularity by a seeded scheduler, different (simulated) clock values, shuffled directory enumeration order. Oracle: byte equality of the serialised result with timestamps masked.",
+   text="The same generated calls are executed in a pristine forked interpreter (golden) and under seeded variations of everything the property quantifies over: fresh interpreters with different PYTHONHASHSEED / cwd / locale / TZ, long-lived workers that first served a shuffled history (incl. the same bytes and near-twins of them through other entry points, with the garbage collector disabled / forced), concurrently scheduled asyncio tasks under a deterministic loop, caller threads pre-empted at line granularity by a seeded scheduler, different (simulated) clock values, shuffled directory enumeration order, different user/host/terminal/HOME. Deterministic parts inside the sampling: a fixed battery of order- and state-sensitive calls is served by every fresh interpreter, and all ordered pairs of that battery are executed one pair per process. Oracle: byte equality of the serialised result with timestamps masked.",
    note="Trusted: masking touches only routing_log timestamps and the sandbox root; schema texts are byte-identical across configurations. Locales limited to those installed (C, C.UTF-8, POSIX).",
    tech="deterministic simulation of process configuration, call history, task and thread schedules with a golden-run differential oracle",
    ref="5"),
